@@ -12,7 +12,7 @@ import (
 )
 
 // DataClass names a family of plaintexts; Make realises one member.
-var DataClasses = []string{"empty", "one", "zeros", "zeroprefix", "run", "random", "text", "periodic", "xx", "alternating", "sparse", "ramp", "nearrandom", "lowentropy", "randomrepeats"}
+var DataClasses = []string{"empty", "one", "zeros", "zeroprefix", "run", "random", "text", "periodic", "xx", "alternating", "sparse", "ramp", "nearrandom", "lowentropy", "randomrepeats", "farrepeat"}
 
 // MakeData builds a plaintext of roughly n bytes from a class and a seed.
 func MakeData(class string, n int, seed int64) []byte {
@@ -82,6 +82,17 @@ func MakeData(class string, n int, seed int64) []byte {
 		b := make([]byte, n)
 		for i := range b {
 			b[i] = byte(perm[r.Intn(a)])
+		}
+		return b
+	case "farrepeat":
+		// 300 random bytes, zeros, the same 300 bytes again: one repeat at distance exactly n-300
+		b := make([]byte, n)
+		if n >= 600 {
+			r.Read(b[:300])
+			for i := 0; i < 300; i++ {
+				b[i] |= 1 // no zero bytes inside X: it cannot match the filler
+			}
+			copy(b[n-300:], b[:300])
 		}
 		return b
 	case "randomrepeats":
